@@ -26,6 +26,7 @@ type step struct {
 	K    string `json:"k"`
 	E    int    `json:"e"`
 	O    int    `json:"o"`
+	End  int    `json:"end"`
 	Last int    `json:"last"`
 	D    int    `json:"d"`
 	To   int    `json:"to"`
@@ -70,7 +71,7 @@ steps:
 		switch s.A {
 		case "Call":
 			if s.T == "S" {
-				y.callSchedule(s.ID, s.K, s.E, s.O, s.Last)
+				y.callSchedule(s.ID, s.K, s.E, s.O, s.End, s.Last)
 			} else {
 				y.callRelease(s.ID)
 			}
@@ -190,7 +191,7 @@ func replayRace(t *rt.Trace, name string, beh []step, coord bool, rng *rand.Rand
 		switch s.A {
 		case "Call":
 			if s.T == "S" {
-				y.callSchedule(s.ID, s.K, s.E, s.O, s.Last)
+				y.callSchedule(s.ID, s.K, s.E, s.O, s.End, s.Last)
 			} else {
 				y.callRelease(s.ID)
 			}
